@@ -1,11 +1,13 @@
 package h
 
 import (
+	"encoding/hex"
 	"fmt"
 	"math/big"
 	"strings"
 	"time"
 
+	"github.com/tellor-io/layer/utils"
 	disputetypes "github.com/tellor-io/layer/x/dispute/types"
 	oracletypes "github.com/tellor-io/layer/x/oracle/types"
 	registrytypes "github.com/tellor-io/layer/x/registry/types"
@@ -298,6 +300,19 @@ func (w *World) RandomOp(o HistOpts) {
 			w.ClaimDeposits(w.anyActor(), ids, idx)
 		}},
 		{1, func() { w.UpdateTeam(w.anyActor(), w.anyActor()) }},
+		{1 + o.BridgeBias, func() {
+			qs := []string{"qeth", "qbtc", "dep1", "wd1"}
+			qid := hex.EncodeToString(utils.QueryIDFromData(w.QData[qs[w.pick(len(qs))]]))
+			ts := fmt.Sprint(w.Time.UnixMilli() - int64(w.pick(20000)))
+			if o.Boundary && w.pick(3) == 0 {
+				qid, ts = []string{"zz", "", qid[:10]}[w.pick(3)], []string{"-1", "abc", "0", "99999999999999999999"}[w.pick(4)]
+			}
+			// sometimes the exact timestamp of an existing aggregate
+			if a, t, err := w.App.OracleKeeper.GetCurrentAggregateReport(w.Ctx, utils.QueryIDFromData(w.QData["qeth"])); err == nil && a != nil && w.pick(2) == 0 {
+				qid, ts = hex.EncodeToString(a.QueryId), fmt.Sprint(t.UnixMilli())
+			}
+			w.RequestAttestations(w.anyActor(), qid, ts)
+		}},
 		{1, func() {
 			spec := registrytypes.GenesisDataSpec()
 			spec.ReportBlockWindow = uint64(1 + w.pick(4))
@@ -631,6 +646,118 @@ func (w *World) DisputeStory(o HistOpts) {
 	}
 }
 
+// BridgeStory: deposits reported (power around the 2/3 threshold), claimed around the 12 h age boundary,
+// repeated and batched claims, flagging by dispute before/after, and withdrawals.
+func (w *World) BridgeStory(o HistOpts) {
+	sec := time.Second
+	// a short window for bridge deposit rounds opened by a tip (governance spec update)
+	if spec, err := w.App.RegistryKeeper.GetSpec(w.Ctx, "trbbridge"); err == nil && spec.ReportBlockWindow > 5 {
+		spec.ReportBlockWindow = uint64(1 + w.pick(3))
+		w.block(o, 2*sec, func() { w.UpdateDataSpec(w.Gov, "trbbridge", spec) })
+	}
+	// validator operators as reporters: powers 4000 / 2000 / 1000 around the 2/3 threshold of 7000
+	var ops []*Actor
+	for _, v := range w.Vals {
+		a := v.Oper
+		ops = append(ops, &a)
+	}
+	var setup []func()
+	for _, a := range ops {
+		a := a
+		setup = append(setup, func() { w.CreateReporter(a, sdkmath.LegacyZeroDec(), 1_000_000) })
+	}
+	w.block(o, 2*sec, setup...)
+	id := w.NextDep
+	w.NextDep++
+	if id > 8 {
+		id = uint64(1 + w.pick(8))
+	}
+	dep := fmt.Sprintf("dep%d", id)
+	rcpt := w.user()
+	amt := new(big.Int).Mul(big.NewInt(int64(1+w.pick(5000))), big.NewInt(1e12))
+	tip := new(big.Int).Mul(big.NewInt(int64(w.pick(3))), big.NewInt(1e12))
+	val := DepositValue(rcpt.Addr.String(), amt, tip)
+	if o.Boundary && w.pick(4) == 0 {
+		val = w.depositValue(o)
+	}
+	// which operators report: subsets with power below / at / above the threshold
+	subsets := [][]int{{0}, {0, 1}, {0, 1, 2}, {1, 2}, {0, 2}, {0, 1}, {0, 1, 2}, {0, 1}, {0, 1, 2}, {0, 1, 2}}
+	sub := subsets[w.pick(len(subsets))]
+	var reps []func()
+	reps = append(reps, func() { w.Tip(w.user(), dep, int64(1_000_000+w.pick(2_000_000))) })
+	for _, i := range sub {
+		if i < len(ops) {
+			a := ops[i]
+			reps = append(reps, func() { w.Submit(a, dep, val) })
+		}
+	}
+	w.block(o, 2*sec, reps...)
+	for i := 0; i < 5; i++ {
+		w.block(o, 2*sec)
+	}
+	// optionally a second round for the same deposit (a second aggregate, index 1)
+	if w.pick(2) == 0 {
+		sub2 := subsets[w.pick(len(subsets))]
+		var reps2 []func()
+		reps2 = append(reps2, func() { w.Tip(w.user(), dep, int64(1_000_000+w.pick(2_000_000))) })
+		for _, i := range sub2 {
+			if i < len(ops) {
+				a := ops[i]
+				reps2 = append(reps2, func() { w.Submit(a, dep, val) })
+			}
+		}
+		w.block(o, 2*sec, reps2...)
+		for i := 0; i < 5; i++ {
+			w.block(o, 2*sec)
+		}
+	}
+	// optionally the validator set's power shifts by more than 5% between report and claim (new checkpoint,
+	// new threshold): the threshold that counts is the one in force at report time
+	if w.pick(2) == 0 {
+		if w.pick(2) == 0 {
+			w.block(o, 2*sec, func() { w.Delegate(w.user(), w.Vals[2], 3_000_000_000) })
+		} else {
+			w.block(o, 2*sec, func() { w.Undelegate(ops[0], w.Vals[0], 2_500_000_000) })
+		}
+		w.block(o, 2*sec)
+	}
+	claimer := w.user()
+	qid := utils.QueryIDFromData(w.QData[dep])
+	idx := uint64(0)
+	if _, _, err := w.App.OracleKeeper.GetAggregateByIndex(w.Ctx, qid, 1); err == nil && w.pick(2) == 0 {
+		idx = 1
+	}
+	w.block(o, 2*sec, func() { w.ClaimDeposits(claimer, []uint64{id}, []uint64{idx}) }) // too young
+	if w.pick(4) == 0 && len(w.Reports) > 0 {
+		// dispute the deposit report: flags the aggregate
+		rep := w.Reports[len(w.Reports)-1]
+		w.block(o, 2*sec, func() { w.ProposeDispute(w.user(), rep, disputetypes.Warning, int64(rep.Power)*10_000, false, "bridge-story") })
+	}
+	// claim at an exact age of the aggregate: 12h-1ms, 12h, 12h+1ms, 13h
+	gap := 13 * time.Hour
+	if _, ts, err := w.App.OracleKeeper.GetAggregateByIndex(w.Ctx, qid, idx); err == nil {
+		ages := []time.Duration{12*time.Hour - time.Millisecond, 12 * time.Hour, 12*time.Hour + time.Millisecond, 13 * time.Hour}
+		gap = ts.Add(ages[w.pick(len(ages))]).Sub(w.Time)
+		if gap < time.Millisecond {
+			gap = time.Millisecond
+		}
+	}
+	other := 1 - idx
+	w.block(o, gap, func() { w.ClaimDeposits(claimer, []uint64{id}, []uint64{idx}) })
+	w.block(o, 2*time.Millisecond, func() { w.ClaimDeposits(claimer, []uint64{id}, []uint64{idx}) })
+	w.block(o, 20*sec, func() { w.ClaimDeposits(w.user(), []uint64{id, id}, []uint64{idx, idx}) }, func() { w.ClaimDeposits(w.user(), []uint64{id}, []uint64{idx}) })
+	w.block(o, time.Hour, func() { w.ClaimDeposits(claimer, []uint64{id}, []uint64{other}) }, func() { w.ClaimDeposits(claimer, []uint64{id, uint64(1 + w.pick(8))}, []uint64{idx, 0}) })
+	// withdrawals
+	for i := 0; i < 1+w.pick(3); i++ {
+		a := w.anyActor()
+		rc := fmt.Sprintf("%040x", 0xbb00+w.pick(1000))
+		if w.pick(5) == 0 {
+			rc = "0x" + rc
+		}
+		w.block(o, 2*sec, func() { w.WithdrawTokens(a, rc, w.amount()) }, func() { w.Submit(ops[0], fmt.Sprintf("wd%d", 1+w.pick(5)), val) })
+	}
+}
+
 // SelectorStory: a selector's stake follows it through reporters: A reports with it, the selector
 // switches to B and then to C (B may or may not have reported), C reports; unjail attempts around.
 func (w *World) SelectorStory(o HistOpts) {
@@ -704,6 +831,11 @@ func (w *World) RunHistory(o HistOpts) {
 		storyAt = 2 + w.pick(o.Blocks/2+1)
 	}
 	for b := 0; b < o.Blocks && !w.Halted; b++ {
+		if b == storyAt && o.BridgeBias > 0 && w.pick(3) != 0 {
+			w.BridgeStory(o)
+			storyAt = b + 2 + w.pick(6)
+			continue
+		}
 		if b == storyAt && w.pick(3) == 0 {
 			w.SelectorStory(o)
 			continue
